@@ -202,18 +202,24 @@ def _exec_unit(args):
                             hs_ = [_abstract_ufs(h, memo_, cache_) for h in gi[0]]
                             g_ = _abstract_ufs(gi[1], memo_, cache_)
                             variants.append(solve.QFNRA_MARK + solve.obligation_smt2(type(ob)(ob.name, ob.kind, hs_, g_), []))
+                full_text = solve.obligation_smt2(ob, axioms)
+                # many obligations are decided at once on the full set: one short attempt before the weakened variants
+                variants.append(solve.EARLY_MARK + full_text)
                 if len(near0) < len(near):
                     variants.append(solve.obligation_smt2(type(ob)(ob.name, ob.kind, near0, ob.goal), []))
                 if len(near) < len(pool_):
                     variants.append(solve.obligation_smt2(type(ob)(ob.name, ob.kind, near, ob.goal), []))
                 variants.append(solve.obligation_smt2(ob, []))
                 variants.append(solve.obligation_smt2(ob, axioms))
+                no_retry = False
                 if getattr(c, "recorded_finding_only", False) and ob.kind == "post":
                     # an obligation kept only to re-establish a recorded finding: one cheap attempt (it is expected to
                     # fail; if a change makes it provable the KNOWN-FINDING line disappears)
                     variants = variants[:1]
+                    no_retry = True
             obs.append({"name": ob.name, "kind": ob.kind, "meta": ob.meta, "soft": ob.soft,
-                        "smt2": variants[-1], "variants": variants, "nhyps": len(ob.hyps)})
+                        "smt2": variants[-1], "variants": variants, "nhyps": len(ob.hyps),
+                        "no_retry": locals().get("no_retry", False)})
         return {"key": key, "label": label, "unsupported": rr.unsupported, "exits": rr.exits,
                 "obligations": obs, "stats": rr.ctx.stats, "notes": rr.ctx.notes[:20],
                 "source_file": rr.source_file, "exec_s": time.time() - t0,
@@ -224,22 +230,26 @@ def _exec_unit(args):
 
 
 def ground_instances(goal, hyps, rounds=2, max_terms=24):
-    """Hand-made E-matching for the common shape 'forall i. guard -> A(i) == body(i)': skolemise the goal, instantiate
-    every one-variable integer-quantified hypothesis at the index terms occurring under uninterpreted functions, and
-    return (quantifier-free hypotheses, skolemised goal).  Every instance is implied by its hypothesis, so a proof from
-    the instances is a proof from the hypotheses (dropping the quantified originals only weakens)."""
+    """Hand-made E-matching for the common shape 'forall i. guard -> A(i) == body(i)': skolemise the goal, replace every
+    POSITIVELY occurring one-variable integer-quantified subformula of a hypothesis (top level, or under and / or / the
+    consequent of an implication) by the conjunction of its instances at the index terms occurring under uninterpreted
+    functions, and drop what cannot be treated.  phi[forall x.psi] implies phi[psi(t1) & ... & psi(tn)] at positive
+    positions, so a proof from the result is a proof from the hypotheses.  Negatively occurring quantifiers (antecedents,
+    under not) are left untouched.  Returns (hypotheses, skolemised goal) - quantifiers may remain inside both."""
     import z3
     g = goal
     if z3.is_quantifier(g) and g.is_forall():
         consts = [z3.FreshConst(g.var_sort(k), "sk") for k in range(g.num_vars())]
         g = z3.substitute_vars(g.body(), *reversed(consts))
-    if _has_quantifier(g):
-        return None
-    ground = [h for h in hyps if not _has_quantifier(h)]
-    quant = [h for h in hyps if z3.is_quantifier(h) and h.is_forall() and h.num_vars() == 1
-             and h.var_sort(0) == z3.IntSort()]
-    seen_terms = {}
-    insts = []
+    elif z3.is_and(g):
+        parts = []
+        for c_ in g.children():
+            if z3.is_quantifier(c_) and c_.is_forall():
+                cs = [z3.FreshConst(c_.var_sort(k), "sk") for k in range(c_.num_vars())]
+                parts.append(z3.substitute_vars(c_.body(), *reversed(cs)))
+            else:
+                parts.append(c_)
+        g = z3.And(*parts)
 
     def index_terms(t, acc):
         stack, seen = [t], set()
@@ -256,11 +266,40 @@ def ground_instances(goal, hyps, rounds=2, max_terms=24):
                         acc.setdefault(a.get_id(), a)
                 stack.extend(x.children())
 
+    def instantiable(q):
+        return z3.is_quantifier(q) and q.is_forall() and q.num_vars() == 1 and q.var_sort(0) == z3.IntSort()
+
+    def rewrite(t, terms, positive, found):
+        """replace positively occurring instantiable quantifiers by their instances at `terms`"""
+        if z3.is_quantifier(t):
+            if positive and instantiable(t):
+                found.append(True)
+                if not terms:
+                    return z3.BoolVal(True)
+                return z3.And(*[z3.substitute_vars(t.body(), x) for x in terms]) if len(terms) > 1 else \
+                    z3.substitute_vars(t.body(), terms[0])
+            return t if not positive else (t if not _droppable else z3.BoolVal(True))
+        if not z3.is_app(t) or not z3.is_bool(t) or not _has_quantifier(t):
+            return t
+        k = t.decl().kind()
+        ch = t.children()
+        if k == z3.Z3_OP_AND:
+            return z3.And(*[rewrite(c_, terms, positive, found) for c_ in ch])
+        if k == z3.Z3_OP_OR:
+            return z3.Or(*[rewrite(c_, terms, positive, found) for c_ in ch])
+        if k == z3.Z3_OP_IMPLIES:
+            return z3.Implies(rewrite(ch[0], terms, not positive, found), rewrite(ch[1], terms, positive, found))
+        if k == z3.Z3_OP_NOT:
+            return z3.Not(rewrite(ch[0], terms, not positive, found))
+        return t
+
+    _droppable = False
+    ground = [h for h in hyps if not _has_quantifier(h)]
+    quant = [h for h in hyps if _has_quantifier(h)]
+    seen_terms = {}
     frontier = {}
     index_terms(g, frontier)
-    for h in ground:
-        if len(frontier) > max_terms:
-            break
+    out = []
     for _ in range(rounds):
         new_terms = {k: v for k, v in frontier.items() if k not in seen_terms}
         if not new_terms or len(seen_terms) + len(new_terms) > max_terms:
@@ -268,11 +307,21 @@ def ground_instances(goal, hyps, rounds=2, max_terms=24):
         seen_terms.update(new_terms)
         frontier = {}
         for h in quant:
-            for t in new_terms.values():
-                inst = z3.simplify(z3.substitute_vars(h.body(), t))
-                insts.append(inst)
-                index_terms(inst, frontier)
-    return ground + insts, g
+            found = []
+            inst = rewrite(h, list(new_terms.values()), True, found)
+            if not found:
+                continue
+            inst = z3.simplify(inst)
+            out.append(inst)
+            index_terms(inst, frontier)
+    # hypotheses in which nothing could be instantiated and that still carry quantifiers are kept only when the
+    # quantifier sits at a negative position (they are needed as they are, e.g. 'no crossing so far -> payback 0')
+    for h in quant:
+        found = []
+        rewrite(h, [], True, found)
+        if not found:
+            out.append(h)
+    return ground + out, g
 
 
 def _abstract_ufs(t, memo, cache):
@@ -388,6 +437,8 @@ def run_property(pid, tier="quick", seed=0, verbose=True, only_unit=None):
             tmo = (solve.Z3_TIMEOUT_MS if last else (8000 if stage == 0 else 20000)) if not is_canary else 1500
             if vs[stage].startswith(solve.QFNRA_MARK):
                 tmo = 120000
+            if vs[stage].startswith(solve.EARLY_MARK) and not is_canary:
+                tmo = 6000
             jobs.append((n, vs[stage], solve.Z3_RLIMIT if not is_canary else 1500000, tmo))
         if not jobs:
             break
@@ -422,6 +473,38 @@ def run_property(pid, tier="quick", seed=0, verbose=True, only_unit=None):
         elif verdict == prev["verdict"]:
             prev["backend"] = "z3+cvc5"
             prev["time_s"] += dt
+    # ---- robustness: an obligation that no stage proved is tried again, on its own terms: every variant, three solver
+    # seeds, generous budgets, few processes at a time (wall-clock timeouts must not depend on how busy the machine is).
+    # Only what is still unproved after that is reported; 'refuted' still counts only for the full hypothesis set.
+    unproved = [n for n, v in verdicts.items() if kinds[n] != "canary" and v["verdict"] == "unknown" and allobs[n]["variants"]
+                and not allobs[n].get("no_retry")]
+    if 0 < len(unproved) <= 6:      # many unproved obligations at once are a changed function, not solver noise
+        import multiprocessing as mp
+        small = mp.get_context("fork").Pool(max(2, min(6, (os.cpu_count() or 4) // 2)))
+        try:
+            jobs = []
+            for n in unproved:
+                vs = allobs[n]["variants"]
+                pick = sorted({0, len(vs) - 1} | {vi for vi, t in enumerate(vs) if t.startswith(solve.QFNRA_MARK)})
+                for vi in pick:
+                    text = vs[vi]
+                    for sd in (1, 2):
+                        t_ = text if text.startswith(solve.QFNRA_MARK) else f"{solve.SEED_MARK}{sd}\n" + text
+                        jobs.append((f"{n}\x00{vi}\x00{sd}", t_, solve.Z3_RLIMIT * 4, 180000))
+                        if text.startswith(solve.QFNRA_MARK):
+                            break
+            done = set()
+            for tag, verdict, dt, be, reason, rl in small.imap_unordered(solve._solve_z3_text, jobs, chunksize=1):
+                n, vi, sd = tag.split("\x00")
+                if verdict == "proved" and n not in done:
+                    done.add(n)
+                    verdicts[n] = {"verdict": "proved", "time_s": verdicts[n]["time_s"] + dt, "backend": be + " (retry)",
+                                   "reason": f"proved on retry: variant {vi}, seed {sd}", "rlimit": rl, "variant": int(vi)}
+                if len(done) == len(unproved):
+                    break
+        finally:
+            small.terminate()
+            small.join()
     solve_s = time.time() - t1
     return {"pid": pid, "tier": tier, "seed": seed, "units": unit_results, "verdicts": verdicts, "kinds": kinds,
             "exec_s": exec_s, "solve_s": solve_s, "wall_s": time.time() - t0, "registry": registry}
